@@ -119,6 +119,11 @@ def discover(repo: Repo, outer: FuncInfo, *, func_name='func', pre_name='preproc
             continue
         cands.append(sp)
     if not cands:
+        # the feeder moved out of the generator: a module-level function of the same module (closure-free by construction)
+        for sp in spawn_sites(outer):
+            if sp.target is not None and sp.target.parent is None and sp.target.module is outer.module and sp.kind in ('thread', 'task'):
+                cands.append(sp)
+    if not cands:
         raise AnchorError(f'{outer.key}: no feeder spawned from a nested function')
     # the feeder is the spawned nested function that puts on a queue the outer function gets from
     for sp in cands:
